@@ -63,9 +63,10 @@ CLAIMS = {
          "real protocol (both roles, Twisted+asyncio, NVX) vs the model, independent frame parser, and end-to-end delivery of "
          "re-segmented streams to a real peer endpoint.",
          "Trusted: Coq kernel; hand-written model tied by differential runs. Modelled, not verified: CPython bytes/int/deque, "
-         "txaio.call_later. Delivery by the REAL receive loop under arbitrary segmentation is covered by the end-to-end runs and "
-         "by C02's receive model, not by a joint theorem. Compression is C12, closing is C05. Known findings: duplex/*/peer-ping-"
-         "inside-streaming-frame.",
+         "txaio.call_later. Delivery to the peer is a joint theorem (Props/C01Join.v): the send model's wire, cut into ANY "
+         "segments, drives C02's receive model (both failure policies, both roles, compatible options) to deliver exactly the sent "
+         "messages in order without failing; the real receive loop is tied to that model by C02's runs and by the end-to-end "
+         "re-segmentation runs here. Compression is C12, closing is C05. Known findings: duplex/*/peer-ping-inside-streaming-frame.",
          "executable model + refinement invariants + differential runs + independent RFC parser + e2e re-segmentation"),
  "C10": ("5 C10",
          "Coq theorems over an executable model of the callee path of ApplicationSession, for all op histories, transports "
@@ -147,9 +148,10 @@ CLAIMS = {
          "completeness, bounded close/drop, no timer has any effect after CLOSED. Differential run: timelines on a 125 ms grid "
          "with every placement of each peer reaction before/at/after each deadline for settings {0,1,2,5} s, both roles and "
          "frameworks.",
-         "Partial: ping periodicity and per-instance responsiveness of the close and ping timers are proved only as computed "
-         "example timelines and covered by the grid runs, not as general invariants; wall-clock behaviour of real reactors is "
-         "assumed. Same trusted base as C05.",
+         "Partial: responsiveness is proved for the open, close and drop timers (a peer that reacted in time is never cut by "
+         "them); for the auto-ping timer only the per-step statement (C17_responsive_ping_partial) is proved - periodic re-arming "
+         "(uniqueness of the re-armed ping call over a whole run) is covered by the grid runs, not by a general invariant; "
+         "wall-clock behaviour of real reactors is assumed. Same trusted base as C05.",
          "Coq invariants over a timed transition system + grid correspondence on virtual clocks"),
  "C07": ("5 C07",
          "Coq theorems over an executable model of parseHttpHeader, both processHandshake chains, succeedHandshake, request "
